@@ -193,11 +193,16 @@ def rewrite_arm(text, dropped):
             count += 1
             if count > 2:
                 raise rules.ExtractionError('arm consumes more than 2 operands on one path')
-            rep = 'OPND(%d)' % count if m.group(1) == 'Int' else '(OPND(%d) != 0)' % count
+            rep = 'OPND(%d)' % count if m.group(1) == 'Int' else 'pml_dataToBool(OPND(%d))' % count
             s = s[:m.start()] + rep + s[m.end():]
         for v in datavars:
             s = re.sub(r'dataToInt\(\s*%s\s*\)' % v, v, s)
-            s = re.sub(r'dataToBool\(\s*%s\s*\)' % v, '(%s != 0)' % v, s)
+            s = re.sub(r'dataToBool\(\s*%s\s*\)' % v, 'pml_dataToBool(%s)' % v, s)
+        # peeking at the next operand node without consuming it
+        s = re.sub(r'strTo<int>\(\s*\(\s*\*\s*opIter\s*\)->value\s*\)', 'OPLIT(%d)' % (count + 1), s)
+        s = re.sub(r'\(\s*\*\s*opIter\s*\)->type\b', 'OPKIND(%d)' % (count + 1), s)
+        for nm, idx in opnames.items():
+            s = re.sub(r'\b%s->type\b' % nm, 'OPKIND(%d)' % idx, s)
         s = re.sub(r'\bnode->type\b', 'node_type', s)
         s = re.sub(r'\bnode->operands\.size\(\)', '((size_t)nops)', s)
         maxc[0] = max(maxc[0], count)
@@ -273,6 +278,33 @@ def rewrite_arm(text, dropped):
     return ctext, maxc[0]
 
 
+SIG_D2B = r'\bbool\s+PromelaDataModel::dataToBool\s*\(\s*const\s+Data\s*&\s*(\w+)\s*\)\s*'
+
+
+def extract_dataToBool(repo):
+    """dataToBool restricted to integer-valued operands: the tests on the string representation are resolved
+    by the stated assumption (atom is the decimal text of an int: non-empty, not VERBATIM, not 'true'/'false')
+    and dataToInt(data) becomes the operand value v."""
+    path = os.path.join(repo, SRC)
+    first, last, sig, body = rules.find_function(path, SIG_D2B)
+    d = re.search(SIG_D2B, sig).group(1)
+    subs = [(r'%s\.atom\.size\(\)\s*==\s*0' % d, '0 /* atom non-empty */'),
+            (r'%s\.type\s*==\s*Data::VERBATIM' % d, '0 /* not VERBATIM */'),
+            (r'%s\.atom\.compare\("true"\)\s*==\s*0' % d, '0 /* atom != "true" */'),
+            (r'%s\.atom\.compare\("false"\)\s*==\s*0' % d, '0 /* atom != "false" */'),
+            (r'dataToInt\(\s*%s\s*\)' % d, 'v')]
+    out = body
+    for rx, rep in subs:
+        out = re.sub(rx, rep, out)
+    ctext = '/* %s:%d-%d dataToBool, integer-valued operand */\nstatic bool pml_dataToBool(int v) {%s}\n' % (SRC, first, last, out)
+    chk = re.sub(r'/\*.*?\*/', '', ctext)
+    for rx in (r'\b%s\b' % d, r'\bData\b', r'->', r'\batom\b'):
+        if re.search(rx, rules.strip_literals(chk)):
+            raise rules.ExtractionError('dataToBool not fully rewritten, residue /%s/' % rx)
+    rules.check_residue(chk, [], 'dataToBool')
+    return ctext, (first, last)
+
+
 def extract(repo):
     path = os.path.join(repo, SRC)
     first, last, sig, body = rules.find_function(path, SIG)
@@ -294,7 +326,7 @@ def extract(repo):
         ctext, nconsumed = rewrite_arm(text, dropped)
         for l in ops:
             seen.add(l)
-            code.append('/* %s:%d  arm %s */\nstatic int arm_%s(int nops, int node_type, int v1, int v2) {\n%s\nreturn verif_fallthrough();\n}\n'
+            code.append('/* %s:%d  arm %s */\nstatic int arm_%s(int nops, int node_type, int v1, int v2, int k1, int k2) {\n%s\nreturn verif_fallthrough();\n}\n'
                         % (SRC, first + off, '/'.join(labels), l, ctext))
             res['arms'].append({'token': l, 'line': first + off, 'max_operands_consumed': nconsumed, 'dropped': dropped,
                                 'grammar_arities': ar.get(l, [])})
@@ -303,6 +335,8 @@ def extract(repo):
             res['missing'].append(l)
             if l not in enum:
                 enum.append(l)
+    d2b, d2b_lines = extract_dataToBool(repo)
+    res['dataToBool_lines'] = d2b_lines
     res['c'] = ('/* GENERATED on every run by engines/extract/pml_extract.py from %s */\n'
                 '#include <stdbool.h>\n#include <stddef.h>\n#include <limits.h>\n'
                 'enum { %s };\n'
@@ -310,8 +344,12 @@ def extract(repo):
                 'static int verif_throw(void) { verif_thrown = 1; return 0; }\n'
                 'static int verif_fallthrough(void) { verif_fell = 1; return 0; }\n'
                 '#define OPND(k) (verif_opnd(k, nops), (k) == 1 ? v1 : v2)\n'
+                '#define OPKIND(k) (verif_opnd(k, nops), (k) == 1 ? k1 : k2)\n'
+                '#define OPLIT(k) (verif_opnd(k, nops), verif_lit((k) == 1 ? k1 : k2), (k) == 1 ? v1 : v2)\n'
+                'static void verif_lit(int kind) { __CPROVER_assert(kind == PML_CONST, "O_arity: a literal value is read from an operand node that is not a literal (PML_CONST)"); }\n'
+                'static void verif_opnd(int k, int nops);\n'
                 'static void verif_opnd(int k, int nops) { __CPROVER_assert(k <= nops, "O_arity: the arm takes an operand the parser did not supply (std::list iterator walks off the operand list)"); }\n'
-                % (SRC, ', '.join('%s = %d' % (e, 300 + i) for i, e in enumerate(enum)))) + '\n'.join(code)
+                % (SRC, ', '.join('%s = %d' % (e, 300 + i) for i, e in enumerate(enum)))) + d2b + '\n' + '\n'.join(code)
     return res
 
 
